@@ -22,7 +22,7 @@ def project(mir):
 def classify(kind, rec, mir):
     if gc.rewraps(rec["events"]):
         return "NoRewrap"
-    if any(k == "binding" for k, _ in G.c05(mir)):
+    if gc.binding_inconsistent(rec):
         return "BindingConsistent"
     return None
 
